@@ -125,6 +125,17 @@ func engineNLPSubset(ctx *Ctx) {
 				q = ctx.Dict().DictQuery(r) + " " + vlib.GenQuery(r, words, 1+r.Intn(3), 0) // wording taken from the tree's own tables (stop words, synonyms, intents)
 				ctx.R.Path("dictionary-queries", 1)
 			}
+			if r.Intn(8) == 0 {
+				// words written the way tool names, file names and sentence ends are: joined by - . _ or closed by a full stop
+				// ("docker-compose", "tar.gz", "list_files", "show images."); every part is an ordinary word of the database
+				var parts []string
+				for i, n := 0, 1+r.Intn(2); i < n; i++ {
+					w1, w2 := vlib.Word(r, words), vlib.Word(r, words)
+					parts = append(parts, []string{w1 + "-" + w2, w1 + "." + w2, w1 + "_" + w2, w1 + ".", w1 + "-" + w2 + "-" + vlib.Word(r, words), w1 + "."}[r.Intn(6)])
+				}
+				q = strings.Join(parts, " ")
+				ctx.R.Path("queries-of-joined-words", 1)
+			}
 			o := database.SearchOptions{Limit: N + 1, AllPlatforms: r.Intn(4) > 0, TopTermsCap: []int{0, 0, 0, 1, 4, 10, 50}[r.Intn(7)]}
 			if r.Intn(4) == 0 {
 				o.ContextBoosts = map[string]float64{vlib.Word(r, words): 2}
@@ -136,6 +147,13 @@ func engineNLPSubset(ctx *Ctx) {
 			var off, on []database.SearchResult
 			oOn := o
 			oOn.UseNLP = true
+			// the application searches with typo tolerance on: the enhanced search runs with it in half of the cases (the lexical
+			// matches it must keep are those of the plain search without it)
+			oOn.UseFuzzy = r.Intn(2) == 0
+			cs["enhanced_search_with_typo_tolerance"] = oOn.UseFuzzy
+			if oOn.UseFuzzy {
+				ctx.R.Path("enhanced-searches-with-typo-tolerance", 1)
+			}
 			if !ctx.R.Guard("C06", "SearchUniversal", cs, func() { off = db.SearchUniversal(q, o); on = db.SearchUniversal(q, oOn) }) {
 				continue
 			}
